@@ -1,4 +1,5 @@
 import Mutagen.Proofs.Reconcile
+import Mutagen.Proofs.AncestorUpdate
 /-!
 # C05 — saved sync state stays valid and faithful under any transition outcome
 
@@ -12,6 +13,47 @@ stream `update`. Helper lemmas live in `Mutagen.Proofs.Apply` /
 -/
 namespace Mutagen.Properties.C05
 open Mutagen.Model
+
+/-- **Saved sync state stays valid and faithful** (full statement): for every
+mode, a valid synchronizable ancestor (`EnsureValid(true)` — enforced when the
+archive is loaded), valid endpoint snapshots without phantom directories
+(phantoms are reified before reconciliation) and *every* family of valid
+synchronizable result entries — strictly more than {new, old, nothing,
+prefix-closed sub-trees} — the controller's
+`Apply(ancestor, ancestorChanges ++ αResults ++ βResults)` succeeds, the new
+ancestor passes `EnsureValid(true)` (and is a genuine map at every level), and
+it records at each transitioned path exactly the entry the endpoint reported. -/
+theorem ancestor_update_ok (mode : Mode) (A alpha beta : Option Entry) (resα resβ : List Change)
+    (hA : ValidSync A) (hal : Valid alpha) (hbe : Valid beta)
+    (hpα : onoPhantom alpha = true) (hpβ : onoPhantom beta = true)
+    (hres : ∀ c ∈ resα ++ resβ, ValidSync c.new)
+    (hα : resα.map (·.path) = (Reconcile A alpha beta mode).alpha.map (·.path))
+    (hβ : resβ.map (·.path) = (Reconcile A alpha beta mode).beta.map (·.path)) :
+    ∃ A', apply A ((Reconcile A alpha beta mode).anc ++ (resα ++ resβ)) = .ok A' ∧ ValidSync A' ∧
+      ∀ c ∈ resα ++ resβ, SameTree (getPath A' c.path) c.new :=
+  ancestor_update_valid mode A alpha beta resα resβ hA hal hbe hpα hpβ hres hα hβ
+
+/-- **The update never fails**, for every mode, all trees and *every* family
+of reported result entries: `Apply(ancestor, ancestorChanges ++ αResults ++
+βResults)` resolves every path (ancestor changes arrive parent-before-child,
+and the parent of every transitioned path exists once they are applied). -/
+theorem ancestor_update_succeeds (mode : Mode) (A alpha beta : Option Entry)
+    (resα resβ : List Change)
+    (hα : resα.map (·.path) = (Reconcile A alpha beta mode).alpha.map (·.path))
+    (hβ : resβ.map (·.path) = (Reconcile A alpha beta mode).beta.map (·.path)) :
+    ∃ A', apply A ((Reconcile A alpha beta mode).anc ++ (resα ++ resβ)) = .ok A' :=
+  Mutagen.Model.ancestor_update_succeeds mode A alpha beta resα resβ hα hβ
+
+/-- Success and faithfulness together: the update yields a new ancestor that
+records at each transitioned path exactly what the endpoint reported. -/
+theorem ancestor_update_ok_partial (mode : Mode) (A alpha beta : Option Entry)
+    (resα resβ : List Change)
+    (hα : resα.map (·.path) = (Reconcile A alpha beta mode).alpha.map (·.path))
+    (hβ : resβ.map (·.path) = (Reconcile A alpha beta mode).beta.map (·.path)) :
+    ∃ A', apply A ((Reconcile A alpha beta mode).anc ++ (resα ++ resβ)) = .ok A' ∧
+      ∀ c ∈ resα ++ resβ, SameTree (getPath A' c.path) c.new := by
+  obtain ⟨A', h⟩ := Mutagen.Model.ancestor_update_succeeds mode A alpha beta resα resβ hα hβ
+  exact ⟨A', h, ancestor_update_faithful mode A alpha beta resα resβ hα hβ A' h⟩
 
 /-- **Faithful**, for *every* family of reported result entries (not only
 {new, old, nothing, partial sub-trees}) and every mode: if the controller's
@@ -55,13 +97,9 @@ example :
       .ok (some exampleFile2) := by
   rw [example_modification_propagates]; rfl
 
--- TODO theorem ancestor_update_ok (full strength, DESIGN §8 C05): for every mode and every family of
---   result entries `r_i` with `ValidSync r_i`: `apply A (ac ++ [⟨p_i, r_i⟩…]) = ok A'` (success) and
---   `ValidSync A'`. Missing: (i) success — ancestor changes come parent-before-child and the parent of
---   every transition path is a directory in `apply A ac` (needs the path-wise description of `apply A ac`
---   along the recursion of `reconcile`); (ii) `oensureValid true A'` — needs (i) plus "every ancestor
---   change records a slim synchronizable entry" (false with phantom directories on both sides: the NoPhantom
---   hypothesis). Both are checked on the implementation by the C05 oracle (`apply-failed`,
---   `invalid-ancestor`; ≈8·10⁴ cases per quick run, 0 failures).
+/-! Non-vacuity of the hypotheses of `ancestor_update_ok`: a valid synchronizable
+ancestor, valid phantom-free endpoint trees (one with unsynchronizable content). -/
+example : ValidSync (some exampleTree2) ∧ Valid (some exampleTree1) ∧ onoPhantom (some exampleTree1) = true := by
+  unfold ValidSync Valid; decide
 
 end Mutagen.Properties.C05
